@@ -8,7 +8,7 @@ package optimistichash
 // the certificate, here over the claim's full stored value) followed by the 32-byte hash of the exit rebuilt from the
 // claim. optPieces is the ghost sequence of those byte strings (two per claim).
 //@ ghost var optPieces map[int]Bytes
-//@ func (o *optimisticCommitImportedBrigesData) hash
+//@ func (o *optimisticCommitImportedBrigesData) hash (o)
 //@   props C19
 //@   requires o != nil && forall(k, 0, len(o.bridges), o.bridges[k].globalIndex != nil)
 //@   modifies optPieces
@@ -20,10 +20,10 @@ package optimistichash
 //@   loop 0 invariant forall(A, []Bytes, forall(k, 0, len(o.bridges), A[2*k] == leB(absInt(bigval(o.bridges[k].globalIndex))) && A[2*k+1] == bytesOf(hb(o.bridges[k].bridgeExitHash), 32)) ==> bytesOf(seq(combined), len(combined)) == chainB(A, 2 * (rangeindex + 1)))
 
 // one entry per claim, in order, each carrying that claim's global index as stored (C19)
-//@ func (o *optimisticCommitImportedBrigeData) setBridgeExitHash
+//@ func (o *optimisticCommitImportedBrigeData) setBridgeExitHash (o, claim)
 //@   trusted
 //@   modifies o.bridgeExitHash
-//@ func newCommitImportedBrigesData
+//@ func newCommitImportedBrigesData (claims)
 //@   props C19
 //@   modifies heap
 //@   ensures[one-entry-per-claim-with-its-global-index] result != nil && len(result.bridges) == len(claims) && forall(k, 0, len(claims), result.bridges[k].globalIndex == claims[k].GlobalIndex)
